@@ -239,21 +239,23 @@ def ob_gate(opi):
 NAMEA = 'alnyot_'
 
 
-def gen_cfg(depth, tag='e'):
-    """-> (text, evaluator(cfgs_ref) -> SymBool)"""
-    k = choose(5 if depth > 0 else 2, tag + 'kind')
-    ws = lambda t: ' ' if choose(2, t) else ''
+def gen_cfg(depth, tag='e', lite=False, top=None):
+    """-> (text, evaluator(cfgs_ref) -> SymBool); lite: the nested levels of a depth-2 expression use 1-character names, values of 0-1 characters and no
+    optional blanks (their variety is covered at depth 1); top: the kind of the outermost operator, fixed by the obligation"""
+    k = top if top is not None else choose(5 if depth > 0 else 2, tag + 'kind')
+    ws = (lambda t: '') if lite else (lambda t: ' ' if choose(2, t) else '')
     if k == 0:
-        nm = sym_str(1 + choose(2, tag + 'nl'), tag + 'name', alphabet=NAMEA)
+        nm = sym_str(1 if lite else 1 + choose(2, tag + 'nl'), tag + 'name', alphabet=NAMEA)
         return nm, ('id', nm)
     if k == 1:
-        nm = sym_str(1, tag + 'name', alphabet=NAMEA); val = sym_str(choose(3, tag + 'vl'), tag + 'val', alphabet=NAMEA + ' ,(=')
+        nm = sym_str(1, tag + 'name', alphabet=NAMEA); val = sym_str(choose(2 if lite else 3, tag + 'vl'), tag + 'val', alphabet=NAMEA + ' ,(=')
         return nm + ws(tag + 'w1') + '=' + ws(tag + 'w2') + '"' + val + '"', ('eq', nm, val)
+    sub_lite = lite or depth >= 2
     if k == 2:
-        t, e = gen_cfg(depth - 1, tag + 'n')
+        t, e = gen_cfg(depth - 1, tag + 'n', sub_lite)
         return 'not(' + ws(tag + 'w') + t + ')', ('not', e)
     n = choose(3, tag + 'nargs')
-    parts = [gen_cfg(depth - 1, tag + str(i)) for i in range(n)]
+    parts = [gen_cfg(depth - 1, tag + str(i), sub_lite) for i in range(n)]
     txt = ('any' if k == 3 else 'all') + '('
     for i, (t, _) in enumerate(parts):
         if i: txt = txt + ',' + ws(tag + 'c%d' % i)
@@ -290,9 +292,9 @@ def sym_dict(pairs):
     return SymDict(pairs)
 
 
-def ob_cfg(depth):
+def ob_cfg(depth, top=None):
     def h():
-        txt, e = gen_cfg(depth)
+        txt, e = gen_cfg(depth, top=top)
         for nm in names_of(e, []):
             assume(sym_not(keywordish(nm)))       # an identifier spelled any/all/not is a keyword
         k1 = sym_str(1 + choose(2, 'k1l'), 'k1', alphabet=NAMEA); v1 = sym_str(choose(3, 'v1l'), 'v1', alphabet=NAMEA)
@@ -443,8 +445,11 @@ def obligations(tier):
     out.append(Obligation('semver-order[pre-releases of one release]', ob_order_pre(), dict(core='1.2.3', prerelease_identifiers='1-2 of 1-2 chars over ' + IDA), labels=('pre',), classify=classify_semver, max_paths=3000000))
     for opi in (3, 5, 7) if tier == 'quick' else range(len(OPS)):
         out.append(Obligation('prerelease-gate[%s]' % (OPS[opi] or 'bare'), ob_gate(opi), dict(op=OPS[opi]), labels=('gated',), classify=classify_semver, max_paths=2000000))
-    for d in (1,) if tier == 'quick' else (1, 2):
-        out.append(Obligation('cfg[depth %d]' % d, ob_cfg(d), dict(depth=d, args='<=2', names='1-2 chars over ' + NAMEA), labels=('id', 'eq', 'not', 'any', 'all'), max_paths=3000000))
+    out.append(Obligation('cfg[depth 1]', ob_cfg(1), dict(depth=1, args='<=2', names='1-2 chars over ' + NAMEA), labels=('id', 'eq', 'not', 'any', 'all'), max_paths=3000000))
+    if tier != 'quick':
+        for top, nm in ((2, 'not'), (3, 'any'), (4, 'all')):
+            out.append(Obligation('cfg[depth 2,%s]' % nm, ob_cfg(2, top), dict(depth=2, outermost=nm, args='<=2', nested='1-character names, values of 0-1 characters, no optional blanks (their variety is at depth 1)'),
+                                  labels=(nm,), max_paths=5000000))
     for n in range(0, 6 if tier == 'quick' else 8):
         out.append(Obligation('cfg-free[%d]' % n, ob_cfg_free(n), dict(length=n, alphabet=CFGA), labels=('rejected',), max_paths=3000000))
     out.append(Obligation('dependency-update', ob_dependency_update(), dict(real='cargo.manifest.Dependency.accepts_version / api / update_version', requirements='op + 1.d, then op + {1,2}.d (d a symbolic digit)', version='{1,2}.d.0', reads_before_update='accepts_version and/or api, either order'), labels=('updated',), max_paths=3000000))
